@@ -93,10 +93,19 @@ impl Prop for C07 {
              "layout-only cells, no annotations (GDSII export does not carry them and the statement does not list them)".into()]
     }
     fn plan(&self, tier: Tier) -> Vec<GenSpec> {
-        vec![GenSpec::random("roundtrip", tier.pick(60_000, 600_000))]
+        vec![
+            GenSpec::random("roundtrip", tier.pick(60_000, 600_000)),
+            // bigger libraries (tens of KB of GDSII) taken through a FILE between export and import: GdsLibrary::save then GdsLibrary::load
+            GenSpec::random("roundtrip-via-file", tier.pick(150, 4_000)),
+        ]
     }
     fn run_case(&self, cx: &mut Cx) {
-        let cfg = RawCfg::gds();
+        let via_file = cx.gen == "roundtrip-via-file";
+        let mut cfg = RawCfg::gds();
+        if via_file {
+            cfg.max_cells = 14;
+            cfg.max_elems = 40;
+        }
         let g = rand_raw_lib(&mut cx.rng, &cfg);
         cx.eval();
         let want = match summarize(&g.lib, &g.defs) {
@@ -188,6 +197,29 @@ impl Prop for C07 {
                 }
             }
         }
+        // the file leg: what is imported is what GdsLibrary::load reads back from the saved file
+        let gds = if via_file {
+            let path = cx.tmp("c07.gds");
+            let _ = std::fs::write(&path, vec![0x33u8; 400_000]); // an older, longer file at the target
+            let r = guard(|| gds.save(&path).and_then(|_| gds21::GdsLibrary::load(&path)));
+            let _ = std::fs::remove_file(&path);
+            match r {
+                Ok(Ok(l)) => {
+                    cx.count("via_file_loaded");
+                    l
+                }
+                Ok(Err(e)) => {
+                    cx.violation("via-file|save-or-load-error", json!({"error": format!("{:?}", e).chars().take(300).collect::<String>()}));
+                    return;
+                }
+                Err(c) => {
+                    cx.violation(&format!("via-file|panic|{}|{}", c.site(), c.norm_msg()), json!({"panic": c.msg}));
+                    return;
+                }
+            }
+        } else {
+            gds
+        };
         let back = match guard(|| Library::from_gds(&gds, Some(g.lib.layers.clone()))) {
             Err(c) => {
                 cx.violation(&format!("import-panic|{}|{}", c.site(), c.norm_msg()), json!({"panic": c.msg}));
